@@ -94,6 +94,8 @@ Definition C_Attr : N := 1.       (* AttributeError *)
 Definition C_Key : N := 2.        (* KeyError *)
 Definition C_ValueErr : N := 3.   (* ValueError (vars file cannot be loaded) *)
 Definition C_Type : N := 4.       (* TypeError *)
+Definition C_NotFound : N := 5.   (* jinja2.TemplateNotFound *)
+Definition C_Sandbox : N := 6.    (* jinja2.exceptions.SecurityError: the sandbox refused an expression *)
 Definition C_Unmodelled : N := 98. (* ill-typed parameter value outside the modelled domain *)
 
 (* ---------- dict helpers ---------- *)
@@ -151,7 +153,8 @@ Record env := {
   e_tv : option str;              (* PYSIGMA_ALLOW_VARS_EXECUTION *)
   real : str -> list str;         (* os.path.realpath, as the list of components below the root *)
   loadable : str -> bool;         (* the file exists and is a Python module defining `vars` *)
-  fetch_ok : source -> bool       (* the file is readable / the command exits with 0 / the request succeeds *)
+  fetch_ok : source -> bool;      (* the file is readable / the command exits with 0 / the request succeeds *)
+  tpl_file : str -> str -> option str  (* FileSystemLoader(path).get_template(name): the template text, if the file exists *)
 }.
 
 Definition lower_ascii (c : N) : N := if (65 <=? c) && (c <=? 90) then c + 32 else c.
@@ -308,19 +311,28 @@ Definition ext_ctor (kind : N) (ps : list (str * yv)) (flag : bool) : outcome no
        | None => Crash C_Unmodelled
        end.
 
+(* the Jinja2 template of a template item: inline text (path is None: SandboxedEnvironment.from_string) or the file
+   `template` below `path` (SandboxedEnvironment(loader=FileSystemLoader(path)).get_template) *)
+Definition tpl_source (E : env) (ps : list (str * yv)) : outcome str :=
+  match lookup k_template ps with
+  | Some (YStr t) =>
+    match lookup k_path ps with
+    | None | Some YNull => Ok t
+    | Some (YStr p) => match tpl_file E p t with Some text => Ok text | None => Crash C_NotFound end
+    | Some _ => Crash C_Unmodelled
+    end
+  | _ => Crash C_Unmodelled
+  end.
+
 (* QueryTemplateTransformation / TemplateFinalizer (PARAMS) with the injected caller values *)
 Definition tpl_ctor (E : env) (tv : bool) (ap : option (list str)) (ps : list (str * yv)) : res node :=
   if negb (check_params tpl_accepted [k_template] ps) then rcrash C_Type
-  else match lookup k_template ps with
-       | Some (YStr _) =>
-         if negb (is_none k_path ps) then rcrash C_Unmodelled
-         else match lookup k_vars ps with
-              | None | Some YNull => rret (NTpl None tv ap)
-              | Some (YStr p) => rbind (tpl_init E tv ap (Some p)) (fun _ => rret (NTpl (Some p) tv ap))
-              | Some _ => rcrash C_Unmodelled
-              end
-       | _ => rcrash C_Unmodelled
-       end.
+  else rbind (rlift (tpl_source E ps)) (fun _ =>
+       match lookup k_vars ps with
+       | None | Some YNull => rret (NTpl None tv ap)
+       | Some (YStr p) => rbind (tpl_init E tv ap (Some p)) (fun _ => rret (NTpl (Some p) tv ap))
+       | Some _ => rcrash C_Unmodelled
+       end).
 
 Definition plain_ctor (accepted required : list str) (ps : list (str * yv)) : outcome node :=
   if check_params accepted required ps then Ok NPlain else Crash C_Type.
@@ -477,7 +489,13 @@ Definition load_yaml (E : env) (d : yv) (a : args) (src : option str) : res tree
    ProcessingPipelineResolver.resolve reaches the same call for every file spec and for every *.yml file found
    below a directory spec (resolve_spec -> resolve_path -> resolve_pipeline), with spec = the path found; the route
    only determines which string plays the role of source_path, hence which base directory is in force. *)
-Definition load_resolver (E : env) (d : yv) (spec : str) : res tree := load_yaml E d default_args (Some spec).
+(* resolve_pipeline wraps the whole `with open(spec) ...: return from_yaml(...)` in `except OSError`: an OSError raised
+   while loading (jinja2.TemplateNotFound is one) comes out as SigmaPipelineNotFoundError *)
+Definition E_PipelineNotFound : N := 9.
+Definition oserror_to_notfound {A} (x : res A) : res A :=
+  (match fst x with Crash c => if N.eqb c C_NotFound then SigmaErr E_PipelineNotFound else Crash c | o => o end, snd x).
+Definition load_resolver (E : env) (d : yv) (spec : str) : res tree :=
+  oserror_to_notfound (load_yaml E d default_args (Some spec)).
 
 (* ---------- use: applying the pipeline to one rule whose values carry the placeholders `rem` ---------- *)
 Definition handled (sel : phsel) (n : str) : bool :=
@@ -518,3 +536,53 @@ Fixpoint run_nodes (E : env) (l : list node) (rem : list str) : res (list str) :
 Definition convert (E : env) (t : tree) (phs : list str) : res unit :=
   rbind (run_nodes E (t_items t) phs) (fun rem =>
   match rem with [] => rret tt | _ => rerr E_Placeholder end).
+
+(* ---------- rendering: every template is evaluated inside Jinja2's sandbox ---------- *)
+(* the sandbox answers every attribute whose name starts with an underscore with an "unsafe" undefined value:
+   printing it gives the empty string, but using it further - attribute, call, subscript - raises jinja2's
+   SecurityError.  The model reads that off the template text: "._name" directly followed by one of . ( [ *)
+Definition is_ident (c : N) : bool :=
+  ((48 <=? c) && (c <=? 57)) || ((65 <=? c) && (c <=? 90)) || ((97 <=? c) && (c <=? 122)) || (c =? 95).
+Fixpoint skip_ident (s : str) : str :=
+  match s with c :: r => if is_ident c then skip_ident r else s | [] => [] end.
+Fixpoint unsafe_text (s : str) : bool :=
+  match s with
+  | [] => false
+  | c :: r =>
+    ((c =? 46) &&
+     match r with
+     | 95 :: _ => match skip_ident r with x :: _ => (x =? 46) || (x =? 40) || (x =? 91) | [] => false end
+     | _ => false
+     end) || unsafe_text r
+  end.
+
+Definition tpl_unsafe (E : env) (m : list (str * yv)) : bool :=
+  match tpl_source E m with Ok t => unsafe_text t | _ => false end.
+Definition is_type (ty : str) (m : list (str * yv)) : bool :=
+  match lookup k_type m with Some (YStr t) => str_eqb t ty | _ => false end.
+
+(* a successfully loaded post-processing item that renders an unsafe template (nested post-processing pipelines are
+   always empty, see inst_post) *)
+Definition post_unsafe (E : env) (d : yv) : bool :=
+  match d with YMap m => is_type t_template m && tpl_unsafe E m | _ => false end.
+(* a finalizer, or a finalizer nested below it, that renders an unsafe template *)
+Fixpoint fin_unsafe (E : env) (d : yv) {struct d} : bool :=
+  match d with
+  | YMap m =>
+    (is_type t_template m && tpl_unsafe E m) ||
+    (is_type t_nested m && find_key k_finalizers (fun l => existsb (fin_unsafe E) l) (fun _ => false) false m)
+  | _ => false
+  end.
+Definition doc_unsafe (E : env) (d : yv) : bool :=
+  match d with
+  | YMap m =>
+    match lookup k_postprocessing m with Some (YList l) => existsb (post_unsafe E) l | _ => false end ||
+    match lookup k_finalizers m with Some (YList l) => existsb (fin_unsafe E) l | _ => false end
+  | _ => false
+  end.
+
+(* Backend.convert including QueryTemplateTransformation.apply / TemplateFinalizer.apply: rendering happens inside
+   the sandbox, so it has no effect; a template that reaches for an underscore attribute ends the conversion
+   with jinja2's SecurityError instead of being evaluated *)
+Definition convert_full (E : env) (d : yv) (t : tree) (phs : list str) : res unit :=
+  rbind (convert E t phs) (fun _ => if doc_unsafe E d then rcrash C_Sandbox else rret tt).
